@@ -5,7 +5,13 @@ the result) is run over the same generated definitions
   * in fresh subprocesses under PYTHONHASHSEED in {0..15} (quick) / {0..63} + 'random' x 8 (thorough): the outputs
     must be byte-identical;
   * inside one process in several shuffled call orders, and for a sample of definitions alone in a fresh process:
-    every definition's output must equal the one it has in the reference run.
+    every definition's output must equal the one it has in the reference run;
+  * scenario part (c12_scen.py, scenario_oracle): sequences of functions, classes, bare docstrings and argparse
+    functions that contain conversions which RAISE part-way (caught, the driver goes on), lines with several default
+    announcements, empty / blank / stub docstrings and repeated points; every point of every run (seed sweep in natural
+    order, reversed, doubled and shuffled orders in one process) must equal the same point converted ALONE in a fresh
+    process.  A difference is attributed to the hash seed (witness: the point and two seeds) or to the history
+    (witness: the point and a delta-debugged list of earlier conversions; check_case replays both forms).
 The C12 theorems (coq/props/C12.v) cover the docstring/signature merge in full.  One finding class remains, below the
 model: an IR that still holds a raw ast node as a default (C12Spec.finding_class_C12) is printed with the node's memory
 address.  Failing definitions are classified by that extracted Coq function, on the model's own parse for functions and
@@ -70,11 +76,21 @@ def attempt(f):
         return "EXC:" + type(e).__name__
 
 
-def convert(kind, src):
+def parse_any(kind, src):
+    if kind == "docstring":                      # a bare interface description
+        return parse.docstring(src)
     tree = ast.parse(src).body[0]
+    if kind == "function":
+        return parse.function(tree)
+    if kind == "argparse":
+        return parse.argparse_ast(tree)
+    return parse.class_(tree, merge_inner_function="__init__")
+
+
+def convert(kind, src):
     out = []
     try:
-        ir = parse.function(tree) if kind == "function" else parse.class_(tree, merge_inner_function="__init__")
+        ir = parse_any(kind, src)
     except Exception as e:
         return ["EXC:" + type(e).__name__]
     out.append("names=" + repr(list(ir["params"].keys())))
@@ -86,12 +102,53 @@ def convert(kind, src):
     out.append(attempt(lambda: emit.function(copy.deepcopy(ir), function_name="f", function_type="static")))
     out.append(attempt(lambda: emit.class_(copy.deepcopy(ir))))
     out.append(attempt(lambda: emit.argparse_function(copy.deepcopy(ir))))
+    out.append(attempt(lambda: emit.docstring(copy.deepcopy(ir), docstring_format="rest", emit_default_doc=False)))
+    out.append("doc=" + repr(ir.get("doc")))
     return out
+
+
+def forked(fn):
+    """fn() evaluated in a child forked from this process: the state is the one right after import, whatever is
+    converted in other children"""
+    r, w = os.pipe()
+    pid = os.fork()
+    if pid == 0:
+        code = 0
+        try:
+            os.close(r)
+            data = json.dumps(fn()).encode()
+        except BaseException as e:  # noqa
+            data, code = json.dumps(["CRASH:" + repr(e)]).encode(), 0
+        try:
+            with os.fdopen(w, "wb") as f:
+                f.write(data)
+        finally:
+            os._exit(code)
+    os.close(w)
+    with os.fdopen(r, "rb") as f:
+        data = f.read()
+    os.waitpid(pid, 0)
+    return json.loads(data)
 
 
 cases = json.load(open(sys.argv[1]))
 order = list(range(len(cases)))
 mode = sys.argv[2]
+if mode.startswith(("fresh:", "seq:", "seqs:")):
+    # fresh:<file>  [i, ...]          every i converted alone in its own forked child      -> [[i, out], ...]
+    # seq:<file>    [i, ...]          converted one after the other in THIS process         -> [[i, out], ...] (in that order)
+    # seqs:<file>   [[i, ...], ...]   every sequence in its own forked child                -> [[[i, out], ...], ...]
+    what, arg = mode.split(":", 1)
+    spec = json.load(open(arg))
+    one = lambda i: convert(cases[i]["kind"], cases[i]["src"])
+    if what == "fresh":
+        res = [[i, forked(lambda: one(i))] for i in spec]
+    elif what == "seq":
+        res = [[i, one(i)] for i in spec]
+    else:
+        res = [forked(lambda: [[i, one(i)] for i in sq]) for sq in spec]
+    sys.stdout.write(json.dumps(res))
+    sys.exit(0)
 if mode.startswith("shuffle:"):
     random.Random(int(mode.split(":")[1])).shuffle(order)
 elif mode.startswith("only:"):
@@ -183,8 +240,21 @@ def _first_diff(a, b):
 
 
 def check_case(case):
-    """replay: one definition under two seeds"""
+    """replay: one definition under two seeds; with `history`, the definition alone against the definition after the
+    recorded conversions in the same process"""
     if "src" not in case:
+        return True, ""
+    if case.get("history") is not None:
+        pts = [dict(h, tags=[]) for h in case["history"]] + [{"kind": case.get("kind", "function"), "src": case["src"], "tags": []}]
+        lab = Lab(pts)
+        try:
+            seed, last = case.get("seed", 0), len(pts) - 1
+            alone = lab.run("fresh", [last], seed)[0][1]
+            after = lab.run("seqs", [list(range(len(pts)))], seed)[0][-1][1]
+        finally:
+            lab.close()
+        if alone != after:
+            return False, "alone %r vs after the recorded history %r" % _first_diff(alone, after)
         return True, ""
     pts = [{"kind": case.get("kind", "function"), "src": case["src"], "tags": []}]
     seeds = case.get("seeds") or list(range(16))
@@ -292,6 +362,170 @@ def repeat_oracle(rng, n):
     return failures, 3 * k + 6
 
 
+class Lab(object):
+    """the conversion script + one list of points in a scratch directory; run(what, spec, seed) -> parsed output"""
+
+    def __init__(self, pts):
+        self.pts = pts
+        self.tmp = tempfile.mkdtemp(prefix="doctrans-verif.%d." % os.getpid())
+        self.script = os.path.join(self.tmp, "convert.py")
+        self.cases_file = os.path.join(self.tmp, "cases.json")
+        open(self.script, "w").write(SCRIPT)
+        json.dump([{"kind": p["kind"], "src": p["src"]} for p in pts], open(self.cases_file, "w"))
+        self.k = 0
+
+    def run(self, what, spec, seed=0):
+        self.k += 1
+        f = os.path.join(self.tmp, "spec%d.%d.json" % (self.k, id(spec) % 100000))
+        json.dump(spec, open(f, "w"))
+        st, out = _run(self.script, self.cases_file, seed, "%s:%s" % (what, f))
+        if st != "ok":
+            raise RuntimeError("conversion script failed (%s, PYTHONHASHSEED=%s): %s" % (what, seed, out))
+        return json.loads(out)
+
+    def close(self):
+        import shutil
+        shutil.rmtree(self.tmp, ignore_errors=True)
+
+
+def _pt(p):
+    return {"kind": p["kind"], "src": p["src"]}
+
+
+def minimise_history(lab, seq, pos, seed, fresh, budget_s=25.0):
+    """the item at seq[pos] converts differently after seq[:pos] than alone: a short history that still does
+    (single predecessors first, then delta debugging on the prefix, within a time budget)"""
+    import time
+    i, t0 = seq[pos], time.time()
+
+    def differs(hists):
+        if not hists:
+            return []
+        chunks = [hists[k::8] for k in range(8) if hists[k::8]]
+        with ThreadPoolExecutor(max_workers=8) as ex:
+            outs = list(ex.map(lambda hs: lab.run("seqs", [h + [i] for h in hs], seed), chunks))
+        res = [None] * len(hists)
+        for k, o in enumerate(outs):
+            res[k::8] = [r[-1][1] != fresh[i] for r in o]
+        return res
+    prefix = seq[:pos]
+    singles = sorted(set(prefix), key=prefix.index)
+    d = differs([[j] for j in singles])
+    if any(d):
+        return [singles[d.index(True)]]
+    cur, n = list(prefix), 2
+    while len(cur) >= 2 and time.time() - t0 < budget_s:
+        size = max(1, len(cur) // n)
+        parts = [cur[k:k + size] for k in range(0, len(cur), size)]
+        d = differs(parts)                                   # one part alone
+        if any(d):
+            cur, n = parts[d.index(True)], 2
+            continue
+        comps = [sum(parts[:k] + parts[k + 1:], []) for k in range(len(parts))]
+        d = differs(comps)                                   # everything but one part
+        if any(d):
+            cur, n = comps[d.index(True)], max(n - 1, 2)
+            continue
+        if size == 1:
+            break
+        n = min(len(cur), n * 2)
+    return cur
+
+
+def scenario_oracle(rng, tier):
+    """history and hash-seed independence on the c12_scen strata.  Reference: every point converted ALONE in a process
+    forked right after import (PYTHONHASHSEED=0).  Compared with it, point by point: the whole sequence in one process
+    in natural order under every seed of the sweep; in reversed and several shuffled orders; twice over in one process.
+    A difference is then attributed: if the point alone differs between the two seeds it is reported with the seeds,
+    otherwise with a minimised history (the conversions that have to run before it in the same process)."""
+    import c12_scen
+    if tier == "quick":
+        n, seeds, norders = 160, list(range(16)), 6
+    else:
+        n, seeds, norders = 500, list(range(64)) + ["random"] * 8, 16
+    pts = c12_scen.gen(rng, n, filler=lambda r: gen_points(r, 1)[0])
+    N = len(pts)
+    natural = list(range(N))
+    orders = [("reversed", natural[::-1]), ("twice", natural + natural)]
+    for k in range(norders):
+        o = list(natural)
+        rng.shuffle(o)
+        orders.append(("shuffled-%d" % k, o))
+    lab = Lab(pts)
+    failures, hist = [], collections.Counter()
+    try:
+        jobs = [("fresh", "fresh", natural, 0), ("fresh-again", "fresh", natural, 0)] + [("natural order under PYTHONHASHSEED=%s" % s, "seq", natural, s) for s in seeds] + \
+               [(name, "seq", o, 0) for name, o in orders] + \
+               [("single", "seq", [i], 0) for i in rng.sample(natural, min(6, N))]
+        with ThreadPoolExecutor(max_workers=min(16, (os.cpu_count() or 4))) as ex:
+            results = list(ex.map(lambda j: lab.run(j[1], j[2], j[3]), jobs))
+        fresh = dict((i, o) for i, o in results[0])
+        # a point whose output differs between two fresh processes under the SAME seed and history (an address in the
+        # text, ...) fails the property on its own: reported once as such, and left out of the attribution below
+        unstable, seen_src = set(), set()
+        for i, out in results[1]:
+            if out != fresh[i]:
+                unstable.add(i)
+                if pts[i]["src"] not in seen_src:
+                    seen_src.add(pts[i]["src"])
+                    failures.append({"case": dict(_pt(pts[i]), seeds=[0, 0]),
+                                     "what": "output differs between two fresh processes with the same PYTHONHASHSEED: %r vs %r" % _first_diff(fresh[i], out),
+                                     "class": None})
+        hist["scenario:points-unstable-on-their-own"] = len(unstable)
+        diffs = []                                       # (run name, seed, seq, position)
+        for (name, what, seq, seed), res in zip(jobs[2:], results[2:]):
+            for pos, (i, out) in enumerate(res):
+                if out != fresh[i] and i not in unstable:
+                    diffs.append((name, seed, seq, pos, out))
+        hist["scenario:differing-outputs"] = len(diffs)
+        # attribute: hash seed or history; one report per (point, cause), earliest position of each run first
+        seen, budget = set(), 8
+        by_run = collections.OrderedDict()
+        for d in diffs:
+            by_run.setdefault((d[0], d[1]), []).append(d)
+        # the earliest differing position of each run first (shortest histories), then the rest by position
+        queue = sorted((ds[0] for ds in by_run.values()), key=lambda d: d[3]) + \
+            sorted((d for ds in by_run.values() for d in ds[1:]), key=lambda d: d[3])
+        alone_cache = {}
+        for name, seed, seq, pos, out in queue:
+            if budget <= 0:
+                break
+            i = seq[pos]
+            if seed != 0:
+                if (i, seed) not in alone_cache:
+                    alone_cache[(i, seed)] = lab.run("fresh", [i], seed)[0][1]
+                if alone_cache[(i, seed)] != fresh[i]:
+                    if (i, "seed") in seen:
+                        continue
+                    seen.add((i, "seed"))
+                    budget -= 1
+                    a, b = _first_diff(fresh[i], alone_cache[(i, seed)])
+                    failures.append({"case": dict(_pt(pts[i]), seeds=[0, seed]),
+                                     "what": "output differs between PYTHONHASHSEED=0 and %s (converted alone in a fresh process each time): %r vs %r" % (seed, a, b),
+                                     "class": None})
+                    continue
+            if (i, "history") in seen:
+                continue
+            seen.add((i, "history"))
+            budget -= 1
+            h = minimise_history(lab, seq, pos, seed, fresh)     # (alone under this seed == alone under seed 0 here)
+            a, b = _first_diff(fresh[i], out)
+            failures.append({"case": dict(_pt(pts[i]), history=[_pt(pts[j]) for j in h], seed=seed, run=name),
+                             "what": "output depends on what was converted earlier in the process (run %s, after %d conversion(s)%s): alone %r vs in sequence %r" % (
+                                 name, len(h), "; the earlier conversion raised" if len(h) == 1 and fresh[h[0]][0].startswith("EXC:") else "", a, b),
+                             "class": None})
+    finally:
+        lab.close()
+    for p in pts:
+        hist["scenario:kind:" + p["kind"]] += 1
+        for t in p["tags"]:
+            hist["scenario:" + t] += 1
+    hist["scenario:conversions-that-raise"] = sum(1 for i in natural if fresh[i][0].startswith("EXC:"))
+    hist["scenario:runs"] = len(jobs)
+    evals = sum(len(j[2]) for j in jobs)
+    return failures, evals, hist, pts
+
+
 def oracle(rng, tier):
     if tier == "quick":
         n, seeds, shuffles, nsingle = 400, list(range(16)), [1, 2, 3, 4], 8
@@ -329,13 +563,23 @@ def oracle(rng, tier):
     rfails, revals = repeat_oracle(rng, 24 if tier == "quick" else 200)
     short += rfails
     hist["repeat-in-process-conversions"] = revals
+    sfails, sevals, shist, spts = scenario_oracle(rng, tier)
+    for f in sfails:
+        if f["case"]["kind"] in ("function", "class"):
+            f["class"] = classify(f["case"])
+    short += sfails
+    hist.update(shist)
     return {
-        "evaluations": runs * len(pts) - len(singles) * (len(pts) - 1),
-        "distinct_nontrivial": len(set(p["src"] for p in pts if len(p["tags"]) >= 2)),
+        "evaluations": runs * len(pts) - len(singles) * (len(pts) - 1) + sevals,
+        "distinct_nontrivial": len(set(p["src"] for p in pts + spts if len(p["tags"]) >= 2)),
         "rule": "each generated definition (see fam_parsesig.gen_def / gen_class) is converted (parse, then 3 docstring "
                 "styles + function + class + argparse emitters) in every run; runs = PYTHONHASHSEED sweep in fresh "
                 "processes + shuffled call orders in one process + single-definition fresh processes; outputs compared "
-                "byte for byte; non-trivial = distinct definition with >= 2 strata tags",
+                "byte for byte; non-trivial = distinct definition with >= 2 strata tags.  Scenario part (c12_scen): "
+                "sequences of functions, classes, bare docstrings and argparse functions with failing conversions, "
+                "several default announcements per line, empty docstrings and repeats; every point of every run (seed "
+                "sweep, reversed, doubled and shuffled orders) is compared with the same point converted alone in a "
+                "fresh process; differences are attributed to the hash seed or to a minimised history",
         "failures": short,
         "histogram": dict(hist, **{"reference_sha256:" + str(info["reference_sha256"]): 1}),
         "samples": [{"kind": p["kind"], "src": p["src"]} for p in pts[:40:8]],
